@@ -9,6 +9,7 @@ package main
 import (
 	"fmt"
 	"os"
+	"runtime"
 	"sort"
 	"strconv"
 	"strings"
@@ -117,18 +118,45 @@ func (o *object) bytes() []byte {
 	return o.gd.Encode()[0]
 }
 
-// guarded runs f; a Go panic is the observable "panic", no answer within 3 s is "hang" (a
-// deadlock of the code under test: the goroutine and whatever it locked stay behind).
+// guarded runs f; a Go panic is the observable "panic"; a worker that sits in a mutex acquisition for half a
+// second without interruption (nothing else in this process holds locks for long) is the observable "hang": a
+// deadlock of the code under test, the goroutine and whatever it locked stay behind. Being slow under load is
+// not a hang: a starved goroutine is runnable, not waiting for a mutex.
 func guarded(f func() string) string {
 	done := make(chan string, 1)
-	go func() { done <- vlib.Guard(f) }()
-	select {
-	case out := <-done:
-		return out
-	case <-time.After(3 * time.Second):
-		wedged = true
-		return "hang"
+	go c13worker(f, done)
+	blocked := 0
+	for i := 0; ; i++ {
+		select {
+		case out := <-done:
+			return out
+		case <-time.After(20 * time.Millisecond):
+		}
+		if workerWaitsForMutex() {
+			blocked++
+		} else {
+			blocked = 0
+		}
+		if blocked >= 25 || i > 6000 {
+			wedged = true
+			return "hang"
+		}
 	}
+}
+
+func c13worker(f func() string, done chan<- string) { done <- vlib.Guard(f) }
+
+var stackBuf = make([]byte, 4<<20)
+
+func workerWaitsForMutex() bool {
+	n := runtime.Stack(stackBuf, true)
+	for _, g := range strings.Split(string(stackBuf[:n]), "\n\n") {
+		if strings.Contains(g, "main.c13worker") {
+			head := g[:strings.IndexByte(g+"\n", '\n')]
+			return strings.Contains(head, "Mutex") || strings.Contains(head, "semacquire")
+		}
+	}
+	return false
 }
 
 func parseEntry(w string, into map[uint8]map[string]crdt.Value) {
@@ -228,7 +256,7 @@ func step(w []string, _ string) string {
 		case "merge":
 			o := objs[w[1]]
 			if o == nil || o.raw == nil {
-				return "bad-op"
+				return "no-object"
 			}
 			other := o.raw
 			if len(w) > 2 && w[2] == "enc" {
@@ -247,7 +275,7 @@ func step(w []string, _ string) string {
 		case "peek":
 			o := objs[w[1]]
 			if o == nil {
-				return "bad-op"
+				return "no-object"
 			}
 			if v := o.view(); v != nil {
 				return dump(v)
@@ -271,7 +299,7 @@ func step(w []string, _ string) string {
 		case "ongossip", "onbcast":
 			src := objs[w[len(w)-1]]
 			if src == nil || (src.raw == nil && src.gd == nil) {
-				return "bad-op"
+				return "no-object"
 			}
 			var d mesh.GossipData
 			var err error
@@ -291,8 +319,11 @@ func step(w []string, _ string) string {
 			return dump(decodeGD(d))
 		case "send", "bcast":
 			o := objs[w[len(w)-1]]
-			if o == nil || o.raw != nil {
-				return "bad-op"
+			if o == nil {
+				return "no-object"
+			}
+			if o.raw != nil {
+				return "not-payload" // only what the swarm itself produced is ever handed to the library
 			}
 			if o.gd == nil {
 				return "skip-nil" // the library never relays a nil payload
